@@ -32,8 +32,12 @@ Mirrors `synkit/Graph/Canon/nauty.py` (`NautyCanonicalizer`: `_initial_partition
   theorems hold for every strict total `lt` and every `pgt` that is a lower-bound test
   (`IRPruneSound`); `IRLabel.lt` / `irPartialGt` are the concrete instance the driver runs
   (lexicographic on the structure, which is the string order whenever rendering is monotone).
-* `aut_perms`, orbits and `max_depth` are not modelled (they do not influence the canonical
-  graph when `max_depth=None`).
+* `aut_perms` and orbits are not modelled (they do not influence the canonical graph).
+* `max_depth`: `irSearch` / `irCanon` are the search with `max_depth=None`; `irSearchCapped` /
+  `irCanonCapped` (last section) are the search with `max_depth=d`: the depth counter, the test
+  `depth > max_depth` at the entry of every call, the `early_stop` flag that ends every enclosing
+  loop, `best` as it stands when the search stops, and the `RuntimeError` of `canonical_form` when
+  `best["perm"]` is still `None`.
 -/
 namespace SynKit.Canon
 open SynKit SynKit.Match
@@ -266,5 +270,77 @@ def IRCovered (G : LGraph) : Prop :=
   (∀ e ∈ G.edges, ∀ k ∈ irEdgeAttrNames, Dict.contains e.2.2 k = true)
 
 instance (G : LGraph) : Decidable (IRCovered G) := by unfold IRCovered; infer_instance
+
+/-! ## The search with a depth cap (`max_depth=d`)
+
+`_search(G, partition, prefix, best, aut_perms, depth, max_depth)` returns `True` ("early stop
+triggered") as soon as it is entered with `depth > max_depth` — before refining, before the leaf
+test —, and a caller that receives `True` returns `True` at once (`return True  # propagate early
+stop upward`): the whole search ends at the FIRST call that exceeds the cap, `best` keeps the
+value it has at that moment.  Pruned children are skipped before the recursive call, so a pruned
+branch never triggers the stop.  `canonical_form` then raises `RuntimeError` when `best["perm"]`
+is `None` and otherwise returns the canonical graph of `best["perm"]` together with the flag.
+(`max_depth` is compared as a number; a negative `max_depth` stops the root call itself and is
+the `RuntimeError` case — the model takes `d : Nat`.) -/
+
+/-- `_search(…, depth=depth, max_depth=d)`: the final `best` and the returned flag.  In the loop
+over the children the state is `(best, stopped)`: once a child returned `True` the loop is left
+(`return True`), which the fold models by passing the state through. -/
+def irSearchCapped (lt : IRLabel → IRLabel → Bool) (pgt : List (List Val) → IRLabel → Bool) (prune : Bool)
+    (G : LGraph) (d : Nat) : Nat → Nat → List (List Nat) → List Nat → IRBest → IRBest × Bool
+  | 0, _, _, _, best => (best, false)
+  | fuel + 1, depth, P, pfx, best =>
+    if depth > d then (best, true)
+    else
+      let P := irRefine G P
+      if irIsDiscrete P then
+        let order := P.flatten
+        (irUpdate lt best (irBuildLabel G (pfx ++ order)) order, false)
+      else
+        match irTargetCell P with
+        | none => (best, false)
+        | some (pre, c, post) =>
+          (irChildren G c).foldl (fun st v =>
+            if st.2 then st
+            else if prune && irPruned pgt G (pfx ++ [v]) st.1 then st
+            else irSearchCapped lt pgt prune G d fuel (depth + 1) (irIndividualise pre c post v) (pfx ++ [v]) st.1)
+            (best, false)
+
+/-- The search of `canonical_form(max_depth=d)`: from the initial partition, empty prefix,
+`depth=0`. -/
+def irCanonCappedWith (lt : IRLabel → IRLabel → Bool) (pgt : List (List Val) → IRLabel → Bool) (prune : Bool)
+    (G : LGraph) (d : Nat) : IRBest × Bool :=
+  irSearchCapped lt pgt prune G d (G.nodes.length + 1) 0 (irInitialPartition G) [] none
+
+/-- … as the code runs it (pruning on, concrete label order): `(best, early_stop_occurred)`. -/
+def irCanonCapped (G : LGraph) (d : Nat) : IRBest × Bool :=
+  irCanonCappedWith IRLabel.lt irPartialGt true G d
+
+/-- What `canonical_form` raises. -/
+inductive IRError
+  | notFound  -- `RuntimeError("Canonical form not found: search stopped early (max_depth=… too small).")`
+deriving DecidableEq, Repr, Inhabited
+
+/-- Answer of `canonical_form(G, return_perm=True, max_depth=d)`: `(G_can, perm, early_stop)`, or the
+`RuntimeError` when no leaf was reached (`best["perm"] is None`); for any label order / pruning test. -/
+def irCanonicalFormCappedWith (lt : IRLabel → IRLabel → Bool) (pgt : List (List Val) → IRLabel → Bool) (prune : Bool)
+    (G : LGraph) (d : Nat) : Except IRError (LGraph × List Nat × Bool) :=
+  match irCanonCappedWith lt pgt prune G d with
+  | (none, _) => .error .notFound
+  | (some (_, o), early) => .ok (canonBy o G, o, early)
+
+/-- … as the code runs it (pruning on), with the model's concrete label order. -/
+def irCanonicalFormCapped (G : LGraph) (d : Nat) : Except IRError (LGraph × List Nat × Bool) :=
+  irCanonicalFormCappedWith IRLabel.lt irPartialGt true G d
+
+/-- Depth of a leaf = number of individualisations on its branch = `depth` of the call that
+reached it = length of its prefix. -/
+def irLeafDepth (l : List Nat × List Nat) : Nat := l.1.length
+
+/-- The deepest of a list of leaves. -/
+def irMaxDepth (ls : List (List Nat × List Nat)) : Nat := ls.foldl (fun m l => Nat.max m (irLeafDepth l)) 0
+
+/-- Depth of the deepest leaf of the (unpruned, uncapped) search tree. -/
+def irDepth (G : LGraph) : Nat := irMaxDepth (irLeaves G (G.nodes.length + 1) (irInitialPartition G) [])
 
 end SynKit.Canon
